@@ -255,11 +255,15 @@ def main(argv):
     if a.replay:
         return mod.replay(a.replay) if hasattr(mod, "replay") else generic_replay(a.pid, a.replay)
     chk = Check(a.pid, tier, seed)
-    try:
-        from translate import regen
-        regen.regenerate()
-    except ImportError:
-        pass
+    if not os.environ.get("VERIF_NO_GLOBAL_REGEN"):
+        # (every plugin also runs the translators it depends on; the global pass keeps all Gen files fresh.
+        #  Parallel seeded-change experiments on different trees switch it off so that they do not
+        #  overwrite each other's generated files.)
+        try:
+            from translate import regen
+            regen.regenerate()
+        except ImportError:
+            pass
     try:
         mod.run(chk)
     except build.BuildError as e:
